@@ -130,19 +130,70 @@ def run(ctx):
             if fs and st["lhs"]["l"] == 1:
                 settable.add(fs[-1])
         guards = {}
+        gate_fns = set()
         for c in exec_calls:
             for sb, t in h.control_deps(c.block, depth=2):
                 for o in origins(h, h.blocks[sb]["term"]["op"]):
                     if o.kind == "call" and o.call.name.startswith("pgcat::query_router::QueryRouter::"):
-                        fb = F.body(o.call.name)
-                        if fb:
-                            rd = fields_read(fb) & settable
-                            for f in rd:
-                                guards.setdefault((o.call.name.split("::")[-1], f), []).append(c)
+                        gate_fns.add(o.call.name)
+        # a gate function may read client-settable state as long as the client cannot force it to false:
+        # from every outcome of every test that depends on settable fields, `return true` must stay reachable
+        def forced_false(fn, seen=()):
+            """[] if `fn` returns true on a path whose tests read only non-settable state and include `plugins` being
+            configured (so no client command can switch the dispatch off while plugins exist); else the settable fields it hinges on"""
+            fb = F.body(fn)
+            if fb is None:
+                return [(fn, ["?"])]
+            trues = [blk for blk, i, st in fb.assigns() if st["lhs"]["l"] == 0 and not st["lhs"]["p"] and st["rv"]["k"] == "use" and const_int(st["rv"]["op"]) == 1]
+            settable_sw, plugin_sw, hinge = set(), set(), set()
+            for sw in switches(fb):
+                flds = set()
+                for o in sw.origins():
+                    if o.kind in ("place", "param"):
+                        flds |= {p[1:] for p in o.proj if p.startswith(".")}
+                    if o.kind == "discr":
+                        for oo in origins(fb, o.extra["pl"]):
+                            if oo.kind in ("place", "param"):
+                                flds |= {p[1:] for p in oo.proj if p.startswith(".")}
+                    if o.kind == "call":
+                        for a_ in o.call.args:
+                            for oo in origins(fb, a_):
+                                if oo.kind in ("place", "param"):
+                                    flds |= {p[1:] for p in oo.proj if p.startswith(".")}
+                        cb = F.body(o.call.name)
+                        if cb and o.call.name.startswith("pgcat::query_router::QueryRouter::"):
+                            flds |= fields_read(cb)
+                # `pool_settings.query_parser_enabled` (configuration) is not the session override `self.query_parser_enabled`
+                cfg_only = "pool_settings" in flds
+                if (flds & settable) and not cfg_only:
+                    settable_sw.add(sw.block)
+                    hinge |= flds & settable
+                if "plugins" in flds:
+                    plugin_sw.add(sw.block)
+            par = fb.reach([0], avoid_blocks=settable_sw, want_parents=True)
+            for t_ in trues:
+                if t_ in par and set(fb.path(par, t_)) & plugin_sw:
+                    return []
+            if not hinge:
+                # no explicit test here: the value is delegated / read directly
+                for blk, i, st in fb.assigns():
+                    if st["lhs"]["l"] == 0 and st["rv"]["k"] == "use":
+                        for o in origins(fb, st["rv"]["op"]):
+                            if o.kind in ("place", "param"):
+                                hinge |= {p[1:] for p in o.proj if p.startswith(".")} & settable
+                for c2 in fb.calls("re:^pgcat::query_router::QueryRouter::"):
+                    if c2.dest["l"] == 0:
+                        hinge |= {f for _, fl in forced_false(c2.name, seen + (fn,)) for f in fl} if c2.name not in seen else set()
+            return [(fn, sorted(hinge))] if hinge else []
+        for gfn in sorted(gate_fns):
+            for fn, flds_ in forced_false(gfn):
+                for f in flds_:
+                    guards.setdefault((gfn.split("::")[-1], f), []).append(exec_calls[0])
+        r3.check(bool(gate_fns), "gate-functions", "plugin dispatch is guarded by %s" % sorted(x.split("::")[-1] for x in gate_fns), "cannot resolve the guard of the plugin dispatch")
         if not guards:
-            r3.ok("dispatch-unconditional", "plugin dispatch is not gated by client-settable router state")
+            r3.ok("dispatch-not-client-switchable", "no client SET command can force the dispatch guard to false while plugins are configured")
         for (fn, f), cs in sorted(guards.items()):
-            r3.fail("plugins-gated-by-client-settable:%s" % f, "all %d plugin dispatch sites are guarded by %s(), which reads `%s`; try_execute_command assigns that field (SET SERVER ROLE TO 'primary'|'replica'|'any' sets it to Some(false)), so any client can switch table_access/intercept off for its session" % (len(cs), fn, f), cs[0].where())
+            r3.fail("plugins-gated-by-client-settable:%s" % f, "the plugin dispatch sites are guarded by %s(), which a client can force to false through `%s` (try_execute_command assigns it: SET SERVER ROLE TO 'primary'|'replica'|'any' sets it to Some(false)), so any client can switch table_access/intercept off for its session" % (fn, f), cs[0].where())
 
     # ---------------- R4 relation names compared the way PostgreSQL resolves them
     r4 = ctx.rule("C19-R4", "table_access compares the last identifier of the relation, folded to lower case unless quoted — not the printed ObjectName", floor=3)
